@@ -190,8 +190,8 @@ pub fn generate(tier: &str, rng: &mut Rng) -> (Vec<String>, bool) {
                             out.push(format!("{} w={} mp={} b=opt p={} t=f64 o=f64 xs={}{}", f.name, w, mp_tok(mp), p, join(&xs), tail));
                         }
                         // every output container x path
-                        let oc = ["vec", "deque", "nd", "nds"][k % 4];
-                        let p = if oc == "nds" { "out" } else { ["ret", "out"][(k / 4) % 2] };
+                        let oc = ["vec", "deque", "nd", "nds", "dqw"][k % 5];
+                        let p = if oc == "nds" || oc == "dqw" { "out" } else { ["ret", "out"][(k / 5) % 2] };
                         out.push(format!("{} w={} mp={} oc={} p={} t=f64 o=f64 xs={}{}", f.name, w, mp_tok(mp), oc, p, join(&xs), tail));
                     }
                 }
@@ -241,5 +241,5 @@ pub fn known_finding(r: &Req, imp: &str, _spec: &str) -> Option<String> {
 }
 
 pub fn rule(tier: &str) -> String {
-    format!("(a) accessor table (len, checked get at 0..=len, iteration both directions, size hint, every sub-slice a<=b<=len, contiguous view when offered) of 17 input backends (the option view of a Vec and of an ndarray, Vec, slice, [T;N], Arc<Vec>, VecDeque head offsets 0/1/3, Arc<VecDeque>, Array1, ArrayViewMut1, ArrayView1 step 1,2,3,-1,-2) against the logical sequence, exhaustive over {{null,1,2}}^len, len <= {}; (b) every catalogued function ({}) on every sized backend (round-robin) and every output container x {{returned, caller buffer}} (incl. a strided ndarray view as caller buffer, checked for writes outside its slots): full values against the single model result. Polars cells (ChunkedArray with 1..3 chunks and validity as input backend, and as output container of the returned path): series up to length 3 in the quick tier, 5 in the thorough tier. (c) vcut on every series over {{null,-5,5,15,25}} up to length 3 (4), edges 0,10,20 with and without open outer bounds, both closure sides, collected by try_collect_vec1 and try_collect_trusted_vec1 into Vec / VecDeque / Array1: the labels, or the first per-element error, whatever the container. non-trivial = len >= 2 with a non-null output.", if tier == "thorough" { 6 } else { 4 }, ROLL.len())
+    format!("(a) accessor table (len, checked get at 0..=len, iteration both directions, size hint, every sub-slice a<=b<=len, contiguous view when offered) of 17 input backends (the option view of a Vec and of an ndarray, Vec, slice, [T;N], Arc<Vec>, VecDeque head offsets 0/1/3, Arc<VecDeque>, Array1, ArrayViewMut1, ArrayView1 step 1,2,3,-1,-2) against the logical sequence, exhaustive over {{null,1,2}}^len, len <= {}; (b) every catalogued function ({}) on every sized backend (round-robin) and every output container x {{returned, caller buffer}} (incl. a strided ndarray view as caller buffer, checked for writes outside its slots, and a VecDeque caller buffer whose ring storage wraps around): full values against the single model result. Polars cells (ChunkedArray with 1..3 chunks and validity as input backend, and as output container of the returned path): series up to length 3 in the quick tier, 5 in the thorough tier. (c) vcut on every series over {{null,-5,5,15,25}} up to length 3 (4), edges 0,10,20 with and without open outer bounds, both closure sides, collected by try_collect_vec1 and try_collect_trusted_vec1 into Vec / VecDeque / Array1: the labels, or the first per-element error, whatever the container. non-trivial = len >= 2 with a non-null output.", if tier == "thorough" { 6 } else { 4 }, ROLL.len())
 }
